@@ -85,11 +85,14 @@ def r1_send_gates(ctx):
                         for (tb, lab) in sm.succ[b.idx]:
                             if edge_outcome(F, sm, b.idx, lab, c) is True:
                                 flag_edges.append((b.idx, tb, lab))
-        only = not sm.reachable_avoiding(sbb, allowed + flag_edges)
+        assume = {}
+        if label == "Mutations":
+            assume = {i: 0 for i in range(1, sm.arg_count + 1) if sm.locals[i]["ty"] == "bool"}
+        only = not sm.reachable_avoiding(sbb, allowed, assume=assume)
         ctx.check(only and allowed, "send_messages/%s-sent-only-when-non-empty" % label, site_of(sm, sbb),
                   "%s::send is reachable without passing the non-empty edge of its emptiness predicate%s: an idle server would keep sending" % (
                       label, " or the tracking flag" if label == "Mutations" else ""),
-                  "gated by %s (false edge)%s" % ([short(p[1]) for p in preds], " or tracking flag" if flag_edges else ""))
+                  "gated by %s (false edge)%s" % ([short(p[1]) for p in preds], " or tracking flag" if assume else ""))
         # the predicate must look at content, not at the outer length of a nested container
         for pbb, pd in preds:
             pb = F.fns[pd]
